@@ -21,6 +21,8 @@ def scenarios(tmp):
     S = {
         "S1-caller-buffer": ["c256:p:cc", "A" + hexec.esc(EARLY), "A" + hexec.esc("add rax, rbx\n"), "o0", "G", "d"],
         "S2-internal-growth": ["i", "A" + hexec.esc(EARLY), "A" + hexec.esc(BIG), "o2", "G", "d"],
+        # the same with a retry after a failed growth: the instance must not believe it owns more memory than it does
+        "S2b-growth-retry": ["i", "A" + hexec.esc(EARLY), "A" + hexec.esc(BIG), "o6", "A" + hexec.esc(BIG), "o2", "G", "d"],
         "S3-file": ["i", "A" + hexec.esc(EARLY), "f" + hexec.esc(src), "o2", "G", "d"],
         "S4-file-counting": ["c256:p:cc", "A" + hexec.esc(EARLY), "n4:" + hexec.esc(src), "o2", "G", "d"],
         "S5-bin-file": ["i", "A" + hexec.esc(EARLY), "A" + hexec.esc(BIG), "B" + hexec.esc(out), "G", "d"],
@@ -49,7 +51,7 @@ def parse_trace(obs):
 def run_plan(ops, plan, out_path=None):
     if out_path and os.path.exists(out_path):
         os.remove(out_path)
-    h = "Z%s\t%s" % (plan, "\t".join(ops))
+    h = "ZG%s%s\t%s" % ("," if plan else "", plan, "\t".join(ops))
     obs = hexec.run([h], variant="wrap", dangerous=True, nproc=1, timeout=20)[0]
     data = None
     if out_path and os.path.exists(out_path):
@@ -64,6 +66,9 @@ def judge(name, ops, ref_obs, ref_calls, plan_idx, obs, filedata, ref_file):
     if hexec.is_crash(obs):
         return {"crash"}, "?"
     calls = parse_trace(obs)
+    if any(c.startswith("BADMUNMAP") for _, c, _ in calls):
+        disc.add("munmap-of-memory-the-library-does-not-own")
+    calls = [c for c in calls if not c[1].startswith("BADMUNMAP")]
     faulted = [(si, c) for si, c, f in calls if f]
     desc = ",".join("%s@%s" % (c, ops[si - 1][:1] if si >= 1 else "Z") for si, c in faulted)
     # step index in obs: obs[0] is 'Z:', obs[i] belongs to ops[i-1]
@@ -91,9 +96,13 @@ def judge(name, ops, ref_obs, ref_calls, plan_idx, obs, filedata, ref_file):
             if i in demanded:
                 if a.ret == 0:
                     disc.add("success-despite-refusal")
-            elif i not in fstep and not any(s < i for s in fstep if s in demanded and ops[s - 1][0] in "AfnN"):
+            elif i not in fstep and not any(s < i for s in fstep if ops[s - 1][0] in "AfnN"):
                 if (a.ret, a.off, a.hex) != (ra.ret, ra.off, ra.hex):
                     disc.add("result-differs-without-fault")
+            elif i not in fstep and i >= 2 and ops[i - 2][0] == "o":
+                # a retry from an explicitly set offset after an earlier failed call: must behave like the fault-free retry
+                if (a.ret, a.off, a.hex) != (ra.ret, ra.off, ra.hex):
+                    disc.add("retry-after-failure-differs")
         elif kind == "B":
             f = o.split(":")
             ret = int(f[1]) if len(f) > 2 and f[1].lstrip("-").isdigit() else None
@@ -143,7 +152,7 @@ def run(tier, seed):
                     "distinct_nontrivial = distinct (scenario, fault vector) runs in which a fault was actually delivered")
         for name, ops in S.items():
             ref_obs, ref_file = run_plan(ops, "", out)
-            calls = parse_trace(ref_obs)
+            calls = [c for c in parse_trace(ref_obs) if not c[1].startswith("BADMUNMAP")]
             n = len(calls)
             rep.bounds[name + "_calls"] = [c for _, c, _ in calls]
             plans = [[k] for k in range(n)]
